@@ -34,6 +34,28 @@ def _named_return(sig, log, what):
 LIBC = (r"\blibc::timespec\b", "timespec", "path prefix removed: stand-in `timespec` has the same two i64 fields")
 
 
+def module_consts(src, log, skip=()):
+    """Module-level constants with literal initialisers (or TimeSpec::new(lit, lit)), re-emitted as Verus
+    `exec const`s whose value is known to the proof.  A harmless 'introduce a named constant'
+    refactoring then keeps verifying.  Anything else is left out (an unresolved name -> exit 2)."""
+    out = []
+    for m in re.finditer(r"^(?:pub(?:\([a-z]+\))? )?const ([A-Z][A-Z0-9_]*): ([A-Za-z0-9_:]+) = ([^;]+);[ \t]*$", src, re.M):
+        name, ty, init = m.group(1), m.group(2), m.group(3).strip()
+        if name in skip:
+            continue
+        if re.fullmatch(r"-?[0-9][0-9_]*(?:\.[0-9_]*)?(?:_?[iuf](?:8|16|32|64|128|size))?", init) or re.fullmatch(r"-?[0-9][0-9_]*\.[0-9_]*", init):
+            out.append(f"exec const {name}: {ty} ensures {name} == {init} {{ {init} }}")
+        else:
+            mt = re.fullmatch(r"TimeSpec::new\(\s*(-?[0-9_]+)\s*,\s*(-?[0-9_]+)\s*\)", init)
+            if mt and ty == "TimeSpec":
+                out.append(f"exec const {name}: TimeSpec ensures {name}.0.tv_sec == {mt.group(1)}, {name}.0.tv_nsec == {mt.group(2)} {{ {init} }}")
+            else:
+                continue
+        log.append({"item": f"const {name}", "rewrite": "module-level constant re-emitted as `exec const` with its literal value as postcondition",
+                    "count": 1, "why": "so that named constants introduced by a refactoring are known to the proof"})
+    return "\n".join(out)
+
+
 def nix_source_path(log):
     """src/sys/time.rs of the nix version that Cargo.lock pins for clock-bound-shm."""
     lock = _read("Cargo.lock")
@@ -173,6 +195,7 @@ def gen_compute(out_path):
         sig = _named(sig, log, "fn compute_bound_at (signature)", name="res")
         body = _rewrite(body, [LIBC], log, "fn compute_bound_at (body)")
         nix = extract_nix(log)
+        const_txt += "\n" + module_consts(src, log, skip=("CLOCKBOUND_RESTART_GRACE_PERIOD",))
     except ex.ExtractError as err:
         raise Undecided("extract", "extraction anchor lost: " + str(err))
     tmpl = open(os.path.join(VERIF, "verus", "compute.rs.tmpl")).read()
@@ -211,6 +234,7 @@ def gen_extract(out_path):
         sig, body = ex.fn_parts(sw, "extract_bound_from_tracking")
         parts["SIG:d.extract"] = _named(sig, log, "fn extract_bound_from_tracking (signature)", name="res")
         parts["BODY:d.extract"] = body
+        parts["ITEM:d.consts"] = module_consts(sw, log, skip=("CLOCKBOUND_SHM_DEFAULT_PATH",)) + "\n" + module_consts(lib, log)
     except ex.ExtractError as err:
         raise Undecided("extract", "extraction anchor lost: " + str(err))
     log.append({"item": "chrony_candm::reply::Tracking / ChronyFloat, std::time", "rewrite": "hand-declared stand-ins (fields read by the function; opaque SystemTime/Duration specs)",
